@@ -17,5 +17,6 @@ Thm ==
                           /\ \A a \in 1..(Len(idx)-1) : Less(idx[a], idx[a+1]))
   /\ LET items == [j \in 1..Len(l) |-> <<j, l[j]>>] IN
        \A s \in 0..(SumSeq(items, 1) + 1) :
-          Solvable(items, s) => \E S \in Solutions(items, s) : Cardinality(S) = MinCard(items, s)
+          /\ (Solvable(items, s) => \E S \in Solutions(items, s) : Cardinality(S) = MinCard(items, s))
+          /\ (Solvable(items, s) <=> SolvableDP(items, s))                  \* enumeration of sub-collections = reachable-sums recurrence
 =============================================================================
